@@ -15,6 +15,44 @@ CLAIMED = {
              "The constructor's text parsing is covered by the exhaustive enumeration, not by a theorem (C02 covers it).",
         technique="Lean 4 proof over source-extracted definition + exhaustive differential check",
         ref="7/C03"),
+    "C04": dict(
+        text="Lean 4 invariant proof over the generation model (lean/GBS/Model/Gen.lean): InvR (every inter-residue bond is justified by two "
+             "compatible descriptors of that order on the bonded atoms; no descriptor used twice or both used and open) holds of MolGen(token), is "
+             "preserved by attach_other and by the four other state changes, hence (generic theorem genMol_pres, induction over fuel/elements) of "
+             "every molecule generation returns for every oracle (= every sequence of random choices) on every path. The model is tied to the code by "
+             "running both on the same recorded random histories (bonds, residues, open descriptors, every rng.choice call) and an independent oracle "
+             "re-derives the justification of every bond on the real RDKit molecule.",
+        note="Trusted: Lean kernel; extracted isCompatible; hand-written model Gen.lean validated by the correspondence; RDKit CombineMols/AddBond "
+             "append atoms / add exactly that bond; numpy Generator.choice returns an element of its option list.",
+        technique="Lean 4 invariant proof (induction over operations, all oracles) + differential correspondence on recorded random histories",
+        ref="7/C04"),
+    "C05": dict(
+        text="Lean 4 proofs (C05_partition, C05_bond_endpoints, C05_tree, C05_mass) that every molecule the generation model returns is a list of "
+             "whole token copies on consecutive atom ranges joined by a parent-pointer tree of inter-residue bonds (|bonds| = |residues|-1, all connected "
+             "to residue 0), for every oracle; correspondence as for C04 plus an oracle comparing every residue of every generated RDKit molecule with "
+             "its token fragment (elements, charges, isotopes, inner bonds), tree-ness, sanitisation, hydrogen counts and mass.",
+        note="Partial: sanitisation and hydrogen counts are RDKit's valence model (oracle only, not a theorem); the model's mass is the sum of residue "
+             "masses by definition and is compared with MolGen.weight numerically.",
+        technique="Lean 4 invariant proof + differential correspondence + RDKit oracle",
+        ref="7/C05"),
+    "C07": dict(
+        text="Lean 4 theorem C07_stop_rule about the model's growLoop for every start state, target, fuel and oracle: k>=1 units; after each of the first "
+             "k-1 the added mass did not exceed the target; after unit k it exceeds it or nothing is open; the result is the finalised copy (caps never "
+             "compared, start mass subtracted); C07_one_draw: exactly one draw per object before the first unit. Correspondence with forced targets "
+             "including exact binary64 ties taken from the implementation's own accumulated masses.",
+        note="Trusted as for C04; exact ties are decided on the implementation's own floats by the oracle, the exact-rational model follows the "
+             "implementation's branch at ties (1e-9).",
+        technique="Lean 4 proof by induction on the loop + forced-target differential check (exact ties)",
+        ref="7/C07"),
+    "C08": dict(
+        text="Lean 4 theorems about choose_compatible_weight's law (sums to 1, proportional when weights differ, uniform when equal incl. all zero, "
+             "zero-probability options never returned, empty option list is an error) and about what each kind of pick (open, partner, list, start, "
+             "transfer, hand-over) hands to the generator; every rng.choice call of every real run is compared with the model and with an independent "
+             "statement of the law; complete decision trees of bounded instances are enumerated with a scripted generator (path probabilities sum to 1).",
+        note="The tree-level normalisation is proved per decision node (C08_choose_sums_to_one) and checked by enumeration for whole trees; "
+             "long-run frequencies are not used to decide.",
+        technique="Lean 4 proofs of the selection law + interface-level differential check + exhaustive path enumeration for bounded instances",
+        ref="7/C08"),
 }
 
 NOT_YET = {}
